@@ -601,6 +601,13 @@ func (w *World) call(r *Replica, t callTarget, a pt.Action) (out StepOut) {
 				out.Err = errStr(e)
 			}
 		}
+	case "ack":
+		// a sync answer that brings nothing new (the acknowledgement of what is already acknowledged, e.g. a repeated
+		// response) is applied now - from inside a transaction body this is what a background sync does meanwhile
+		own := r.dt.CreatePushPullPack() // its checkpoint counts the operations it carries as acknowledged
+		r.dt.ApplyPushPullPack(&model.PushPullPack{Key: e1Key, DUID: r.dt.GetDUID(), Type: w.typ,
+			CheckPoint: &model.CheckPoint{Sseq: own.CheckPoint.Sseq, Cseq: own.CheckPoint.Cseq - uint64(len(own.Operations))}})
+		out.Ret = "-"
 	case "patch":
 		ops, e := t.doc.PatchByJSON(a.V)
 		out.Ret = fmt.Sprint(len(ops))
